@@ -32,5 +32,6 @@ def run(rep, tier, seed):
     rep.level = "exploration"
     rep.assume("A1", "A2", "A4", "A5", "A6", "A8")
     D.run_contracts(rep, "C14", D.PART_HEUR + D.FIT + D.COVER + D.TQ, tier, with_lemmas=True)
+    D.run_static(rep, "C14", ("purity",))      # every per-call contract presupposes that results are functions of the arguments
     t3(rep, tier, seed)
     D.link_falsifier(rep)
